@@ -34,11 +34,12 @@ def parseReport (j : Json) : R (List (ModDesc JJ)) := do
     return ⟨← fldStr m "name", ← (← fldArr m "accs").mapM parseAccDesc, ← parsePropsArr (← fld m "props")⟩)
 
 /-- the accessible a request is aimed at (`change m` means `m:target`, `read m` means `m:value`) -/
-def aim (r : Request JJ) : Option (ProbeKind × String × String) :=
+def aim (r : Request JJ VV) : Option (ProbeKind × String × String) :=
   match r with
   | .change spec _ => (target "target" spec).map (fun ma => (.change, ma.1, ma.2))
   | .read spec hd => if hd then none else (target "value" spec).map (fun ma => (.read, ma.1, ma.2))
   | .do_ spec _ => (targetDo spec).map (fun ma => (.do_, ma.1, ma.2))
+  | .assign .. => none
 
 def handle (j : Json) : R Json := do
   let k ← fldStr j "k"
@@ -46,7 +47,9 @@ def handle (j : Json) : R Json := do
   | "describe" =>
     let t ← parseTables (← fld j "oracle")
     let n ← parseNode t (← fld j "node")
-    return Json.mkObj [("report", jarr ((describe predef n).map modDescJson))]
+    let classes := (n.filter (·.exported)).map (fun m => Json.mkObj [("m", Json.str m.name),
+      ("ic", jstrs (interfaceClassesOf Generated.C06.secopBaseClasses m.mro)), ("features", jstrs (featuresOf m.mro))])
+    return Json.mkObj [("report", jarr ((describe predef n).map modDescJson)), ("classes", jarr classes)]
   | "judge" =>
     let t ← parseTables (← fld j "oracle")
     let n ← parseNode t (← fld j "node")
@@ -54,6 +57,14 @@ def handle (j : Json) : R Json := do
     let r2 ← parseReport (← fld j "report2")
     if !(stableB r1 r2) then return Json.mkObj [("bad", jarr [Json.str "unstable", jnat 0, Json.str ""])]
     if !(listsExactlyB predef n r1) then return Json.mkObj [("bad", jarr [Json.str "lists", jnat 0, Json.str ""])]
+    -- interface class and features against the class chain of the implementing class
+    for c in ← fldArr j "classes" do
+      let m ← fldStr c "m"
+      match findModule n m with
+      | none => return Json.mkObj [("bad", jarr [Json.str "class-props", jnat 0, Json.str m])]
+      | some mod =>
+        if !(classPropsB Generated.C06.secopBaseClasses mod.mro (← fldStrs c "ic") (← fldStrs c "features")) then
+          return Json.mkObj [("bad", jarr [Json.str "class-props", jnat 0, Json.str m])]
     let env := mkEnv t .none
     let mut i := 0
     -- requests: report against behaviour
